@@ -68,7 +68,7 @@ class Cost(V):
         if name in ("needs_errors", "is_chi2", "saturated"):
             return VBool(z3.Bool("cost." + name))
         if name == "formatter":
-            return Formatter("cost")
+            return Formatter(self.who)
 
 
 class Container(V):
@@ -647,7 +647,57 @@ def u_fit_info(root):
                             e.write_field(st, me_, "_multifit", VNone())
                             return {"plot_adapter": adapter, "format_as_latex": VBool(z3.BoolVal(latex)), "asymmetric_parameter_errors": VBool(z3.BoolVal(asym))}
                         eng.verify("Plot", "_get_fit_info", None, init, contract=c, tag=f"(asym={asym},latex={latex},errors_valid={errors_valid},gof_none={gof_none},{kind})")
+    # the multi-fit: each member's text ends with the GLOBAL quality of the multi-fit (its goodness of fit / ndf, chi2 probability, or cost)
+    for asym in (False, True):
+        for kind in ("chi2", "saturated", "other"):
+            for gof_none in (False, True):
+                if gof_none and kind == "chi2":
+                    continue
+                mf = Part2("multifit", {"ndf": VNum(z3.Int("multi.ndf")), "cost_function_value": VNum(z3.Real("multi.cost_function_value")), "goodness_of_fit": VNone() if gof_none else VNum(z3.Real("multi.goodness_of_fit")),
+                                        "chi2_probability": VNum(z3.Real("multi.chi2_probability")), "_cost_function": CostKind(kind, "multicost"), "asymmetric_parameter_errors": VOpaque("multi.asymmetric_parameter_errors")})
+                adapter = Adapter(Fit(False, {"errors_valid": VBool(z3.BoolVal(True))}), "chi2")
+                c = Contract("Plot", "_get_fit_info")
+
+                def post(vw, asym=asym, kind=kind, gof_none=gof_none):
+                    if vw.flow == "raise" or not isinstance(vw.result, VStr):
+                        return [("a text is returned", z3.BoolVal(False))]
+                    text, trace = vw.result.s, vw.post.ghost.get("trace", ())
+                    tail = text.split("probability =}$")[-1] if "probability =}$" in text else text
+                    glob = [ln for ln in text.split("\n") if "global" in ln]
+                    out = [("the MULTI-fit refreshes the formatters (after computing its asymmetric uncertainties if asked), not the member fit", z3.BoolVal(("multi-refresh", str(asym)) in trace and not any(t_[0] == "refresh" for t_ in trace)))]
+                    gof_tok = "[multicost|format_as_latex=True|n_degrees_of_freedom=multi.ndf|value=multi.goodness_of_fit|with_name=%s|with_value_per_ndf=True]" % (kind == "chi2")
+                    if kind == "chi2":
+                        out.append(("global chi2 / ndf and global chi2 probability of the multi-fit follow the member's own lines", z3.BoolVal(len(glob) == 2 and gof_tok in glob[0] and "[chi2prob(multi.chi2_probability)|format_as_latex=True|n_significant_digits=3]" in glob[1])))
+                    elif kind == "saturated":
+                        out.append(("global cost / ndf of the multi-fit (absent only if it has no goodness of fit)", z3.BoolVal((len(glob) == 1 and gof_tok in glob[0]) if not gof_none else True)))
+                    else:
+                        cost_tok = "[multicost|format_as_latex=True|value=multi.cost_function_value|with_name=False]"
+                        out.append(("global cost of the multi-fit, and its goodness of fit / ndf when it has one", z3.BoolVal(len(glob) == (1 if gof_none else 2) and cost_tok in glob[0] and (gof_none or gof_tok in glob[1]))))
+                    return out
+                c.ensures.append(post)
+
+                def init(e, st, me_, adapter=adapter, asym=asym, mf=mf):
+                    e.write_field(st, me_, "_multifit", mf)
+                    return {"plot_adapter": adapter, "format_as_latex": VBool(z3.BoolVal(True)), "asymmetric_parameter_errors": VBool(z3.BoolVal(asym))}
+                if not (gof_none and kind == "saturated"):
+                    eng.verify("Plot", "_get_fit_info", None, init, contract=c, tag=f"(multi-fit,asym={asym},{kind},gof_none={gof_none})")
     return eng
+
+
+class Part2(V):
+    """the multi-fit seen from Plot._get_fit_info"""
+
+    def __init__(self, name, attrs):
+        self.name, self.attrs = name, attrs
+
+    def vattr(self, e, st, name):
+        if name == "_update_parameter_formatters":
+            def upd(e_, st_, a, kw):
+                st_.ghost = dict(st_.ghost)
+                st_.ghost["trace"] = st_.ghost.get("trace", ()) + (("multi-refresh", show(kw.get("update_asymmetric_errors", VBool(z3.BoolVal(False))))),)
+                return VNone()
+            return Fn(upd)
+        return self.attrs.get(name)
 
 
 class Adapter(V):
@@ -676,8 +726,8 @@ class Adapter(V):
 
 
 class CostKind(V):
-    def __init__(self, kind):
-        self.kind = kind
+    def __init__(self, kind, who="cost"):
+        self.kind, self.who = kind, who
 
     def vattr(self, e, st, name):
         if name == "is_chi2":
@@ -685,7 +735,7 @@ class CostKind(V):
         if name == "saturated":
             return VBool(z3.BoolVal(self.kind in ("chi2", "saturated")))
         if name == "formatter":
-            return Formatter("cost")
+            return Formatter(self.who)
 
 
 
